@@ -99,3 +99,70 @@ func vBind(maxUsers int) {
 	gldap.VAssert(rs[0].Code == want, "success iff anonymous-and-allowed or exact DN with the first password value, else invalidCredentials")
 	gldap.VReach("bind answered")
 }
+
+func init() { gldap.VReg("H_TD_C19_seq", H_TD_C19_seq) }
+
+// The bind decision follows the directory's *current* state: bind, then one change
+// through LDAP or the Set* API (delete the user, add a user, replace / remove the
+// password, SetUsers), then bind again - the second answer is the statement's
+// predicate evaluated on the store as it is now.
+func H_TD_C19_seq() {
+	gldap.VSummarise("encodeInteger")
+	pw0 := "secret"
+	mk := func(dn, pw string) *gldap.Entry {
+		return gldap.NewEntry(dn, map[string][]string{"password": {pw}})
+	}
+	d := &Directory{t: vT{}, logger: hclog.NewNullLogger(), userDN: DefaultUserDN, groupDN: DefaultGroupDN}
+	d.users = []*gldap.Entry{mk(vUserPool[0], pw0)}
+	bind := func(id int64, dn, pw string) int64 {
+		x := gldap.VBindExchange(id, dn, pw)
+		d.handleBind(vT{})(x.W, x.Req)
+		rs := x.Responses()
+		gldap.VAssert(len(rs) == 1, "exactly one bind response")
+		if len(rs) != 1 {
+			return -1
+		}
+		return rs[0].Code
+	}
+	// first bind: right or wrong password, existing or missing user
+	firstDN := vUserPool[gldap.VLen("bind1.user", 1)]
+	firstPW := []string{pw0, "wrong"}[gldap.VLen("bind1.pw", 1)]
+	c1 := bind(1, firstDN, firstPW)
+	want1 := int64(gldap.ResultInvalidCredentials)
+	if bindShouldSucceed(d.users, false, firstDN, firstPW) {
+		want1 = gldap.ResultSuccess
+	}
+	gldap.VAssert(c1 == want1, "first bind decision")
+	// one change
+	switch gldap.VLen("change", 5) {
+	case 0:
+		x := gldap.VDeleteExchange(2, vUserPool[0])
+		d.handleDelete(vT{})(x.W, x.Req)
+	case 1:
+		x := gldap.VAddExchange(2, vUserPool[1], []string{"password"}, [][]string{{"pw1"}})
+		d.handleAdd(vT{})(x.W, x.Req)
+	case 2:
+		x := gldap.VModifyExchange(2, vUserPool[0], 2, "password", []string{"changed"}) // replace
+		d.handleModify(vT{})(x.W, x.Req)
+	case 3:
+		x := gldap.VModifyExchange(2, vUserPool[0], 1, "password", nil) // delete the attribute
+		d.handleModify(vT{})(x.W, x.Req)
+	case 4:
+		d.SetUsers(mk(vUserPool[1], "pw1"))
+	case 5:
+		// no change
+	}
+	// second bind: any pool user with any of the passwords that ever existed
+	dn2 := vUserPool[gldap.VLen("bind2.user", 1)]
+	pw2 := []string{pw0, "changed", "pw1", ""}[gldap.VLen("bind2.pw", 3)]
+	c2 := bind(3, dn2, pw2)
+	users := d.Users()
+	want2 := int64(gldap.ResultInvalidCredentials)
+	// literally the statement's predicate on the stored entries (a value stored by a Modify
+	// is whatever the directory keeps for it, see C20)
+	if bindShouldSucceed(users, false, dn2, pw2) {
+		want2 = gldap.ResultSuccess
+	}
+	gldap.VAssert(c2 == want2, "the second bind is decided on the directory's current entries")
+	gldap.VReach("bind sequence")
+}
